@@ -1,7 +1,8 @@
 (* C20 -- NAT hole punching: authenticated, complementary instructions, bounded state.
    Statements only; proofs are in Proofs/NatHoleProofs.v, Proofs/NatHoleToday.v (and Proofs/NatHoleCtlProofs.v).
    [nh_today] is the table/guard data regenerated from pkg/nathole by translator unit T2 on every run. *)
-From FRP Require Import Model.NatHoleToday Model.NatHoleCtl Proofs.NatHoleProofs Proofs.NatHoleToday Proofs.NatHoleCtlProofs.
+From FRP Require Import Model.NatHoleToday Model.NatHoleCtl Model.NatHoleTr Proofs.NatHoleProofs Proofs.NatHoleToday Proofs.NatHoleCtlProofs
+  Proofs.NatHoleTrProofs.
 Open Scope Z_scope.
 
 (* Reflective obligation over today's source: the five mode tables, getBehaviorByMode, the swap guards of
@@ -202,6 +203,30 @@ Theorem C20_no_session_for_closed_proxy :
   st3 = fst (ctl_run nh_today auth st1 evs) /\ o3 = [OutReply tr (nh_err_resp (vm_tid vm) NeNoProxy)].
 Proof. exact (ctl_no_session_for_closed_proxy nh_today). Qed.
 Print Assumptions C20_no_session_for_closed_proxy.
+
+(* ---- the transporter each NatHoleResp is handed to (every OutReply / OutResp above is one call of Send) ---- *)
+(* Send on a control's bounded queue has exactly three outcomes: the message is in the queue; refused, and then the control's
+   dispatcher has ended; or the caller stays parked, and then the queue is full and the dispatcher is still there.  There is
+   no outcome "returned without enqueuing although the control is alive" -- a response is never silently dropped.  (That
+   transporterImpl.Send is a send on sendCh, at most guarded by doneCh, with no default clause is part of
+   C20_source_tables_check.) *)
+Theorem C20_send_never_drops :
+  forall st m o st', tr_step st (TrSend m) o = Some st' ->
+  (o = TrEnqueued /\ tq st' = tq st ++ [m] /\ tparked st' = None) \/
+  (o = TrClosed /\ tdone st = true /\ st' = st) \/
+  (o = TrParked /\ tr_full st = true /\ tdone st = false /\ tq st' = tq st /\ tparked st' = Some m).
+Proof. exact tr_send_outcomes. Qed.
+Print Assumptions C20_send_never_drops.
+
+(* every history of sends, drains and the dispatcher's end: a parked Send is released by the very next drain (its message is
+   then in the queue) or by the end of the dispatcher (error) -- it is not left behind *)
+Theorem C20_parked_send_is_released :
+  forall cap l st p, tr_run (tr_init cap) l = Some st -> tparked st = Some p ->
+  (forall m u st', tr_step st TrDrain (TrDrained m u) = Some st' -> u = true /\ In p (tq st') /\ tparked st' = None) /\
+  (forall r st', tr_step st TrDone (TrDoneObs r) = Some st' -> r = true /\ tparked st' = None /\ tdone st' = true) /\
+  (forall st', tr_step st TrDrain TrEmpty = Some st' -> tcap st = 0%nat).
+Proof. exact (fun cap l st p H => tr_parked_released st p (tr_run_inv l _ _ (tr_inv_init cap) H)). Qed.
+Print Assumptions C20_parked_send_is_released.
 
 (* WHOLE SCHEDULES: over any schedule, for every session t and each of the two parties, the number of NatHoleResp sent on
    behalf of t ([ctl_cnt]: OutResp t role _ _ in the output trace) is 0 or 1; it is exactly 1 for the visitor's control AND
